@@ -14,7 +14,7 @@ let () =
                  wo_gen = n_of_int (int_of_string gen); wo_indent = n_of_int (int_of_string indent);
                  wo_keep_ws = (keep <> "0") } in
        let doc = bytes_of_hex h in
-       let r = wbxml2xml_model main_table (nat_of_int 64) o doc in
+       let r = wbxml2xml_model main_table o doc in
        let st = (match r.r_status with ST_OK -> 0 | ST_ERR c -> int_of_n c) in
        (match r.r_out with
         | None -> Printf.printf "st=%d len=%d null_out=1 nul=0\n" st (int_of_n r.r_len)
